@@ -290,18 +290,47 @@ def _normal_cyclic(blocks):
     return False
 
 
+def _acyclic_suffix(blocks):
+    """Non-cleanup blocks from which no normal-edge cycle is reachable (for a loop-free body: all of them)."""
+    n = len(blocks)
+    succ = {i: [s for s in normal_succs(blocks[i]["term"]) if not blocks[s]["cleanup"]] for i in range(n) if not blocks[i]["cleanup"]}
+    # blocks on a cycle: i reaches itself
+    on_cycle = set()
+    for i in succ:
+        seen, work = set(), list(succ[i])
+        while work:
+            x = work.pop()
+            if x in seen:
+                continue
+            seen.add(x)
+            work.extend(succ.get(x, []))
+        if i in seen:
+            on_cycle.add(i)
+    bad = set(on_cycle)
+    changed = True
+    while changed:
+        changed = False
+        for i in succ:
+            if i not in bad and any(s in bad for s in succ[i]):
+                bad.add(i)
+                changed = True
+    return {i for i in succ if i not in bad}
+
+
 def treeify(body, cap=600):
-    """New body dict whose normal (non-cleanup) control-flow graph is a tree: every block reached along more than one path is
-    duplicated per path, so the abstract interpreter never has to merge states (no phis): each return block stands for one path.
-    Applies to loop-free bodies; a body with a loop, or one that would need more than `cap` copies, only gets split_returns."""
+    """New body dict in which the loop-free part of the normal (non-cleanup) control-flow graph that lies after all loops is a tree:
+    every such block reached along more than one path is duplicated per path, so the abstract interpreter never merges states there
+    (no phis) and each return block stands for one path.  For a loop-free body that is the whole body.  Blocks on or before a loop are
+    kept shared.  Falls back to split_returns when more than `cap` copies would be needed."""
     src = body["mir"]["blocks"]
-    if _normal_cyclic(src):
+    dup_ok = _acyclic_suffix(src)
+    if not dup_ok:
         return split_returns(body)
     mir = copy.deepcopy(body["mir"])
     blocks = mir["blocks"]
-    switch_lists = [b["term"] for b in blocks if b["term"]["k"] == "switch"]
-    for t in switch_lists:
-        t["targets"] = [list(x) for x in t["targets"]]
+    for b in blocks:
+        if b["term"]["k"] == "switch":
+            b["term"]["targets"] = [list(x) for x in b["term"]["targets"]]
     claimed = {0}
     clones = 0
     work = [0]
@@ -316,6 +345,8 @@ def treeify(body, cap=600):
                 claimed.add(s)
                 work.append(s)
                 continue
+            if o not in dup_ok:
+                continue  # a shared block (on or before a loop): states merge here as usual
             # a clone must point at the ORIGINAL successors (the first copy was rewired in place): copy from the pristine source
             nb = copy.deepcopy(src[o])
             if nb["term"]["k"] == "switch":
